@@ -261,7 +261,9 @@ class TagHandler:
         self.draws = []      # dict(id, call, phase, e, var(tuple), mean(tuple), offdiag(bool), sized(bool))
         self.ncalls = 0
         self.phase = 0
-        self.bad = []        # malformed requests (strings)
+        self.overflow = False
+
+    MAX_EXP = 46
 
     def _exp(self, d):
         if self.order == "asc" or d >= self.expected:
@@ -273,10 +275,15 @@ class TagHandler:
         for r in range(nrows):
             d = len(self.draws)
             e = self._exp(d)
+            if e > self.MAX_EXP:
+                # more draws than a double can keep apart: answer z = 0 (reachable) and say so; the oracle
+                # then decides truth / decomposition only and reports the execution as capped
+                e = None
+                self.overflow = True
             self.draws.append(dict(id=d, call=self.ncalls, phase=self.phase, e=e, var=tuple(var), mean=tuple(mean),
                                    offdiag=offdiag, sized=sized))
             for j in range(self.t):
-                x = 0.0 if (self.zero or not (var[j] > 0)) else self.signs[j] * float(2 ** e)
+                x = 0.0 if (self.zero or e is None or not (var[j] > 0)) else self.signs[j] * float(2 ** e)
                 out[r, j] = mean[j] + x
         self.ncalls += 1
         return out
